@@ -53,19 +53,27 @@ def tzAux : Nat → Nat → Nat
 
 def tz64 (n : Nat) : Nat := if n = 0 then 64 else tzAux 64 n
 
+/-- floor square root (specification of `arith::isqrt = num_integer::sqrt`), bit by bit:
+after the loop on bits `k-1 .. 0`, `r² ≤ n < (r+1)²` whenever `n < 4^k` -/
+def isqrtAux : Nat → Nat → Nat → Nat
+  | 0, r, _ => r
+  | k + 1, r, n => if (r + 2 ^ k) * (r + 2 ^ k) ≤ n then isqrtAux k (r + 2 ^ k) n else isqrtAux k r n
+
+def isqrt (n : Nat) : Nat := isqrtAux (Nat.log2 n / 2 + 1) 0 n
+
 /-! ### exact modular inverse (specification of `arith::inv_mod64`, `Inverter::invert`) -/
 
-/-- extended Euclid: with `s0·a ≡ r0` and `s1·a ≡ r1 (mod p)` returns `(g, s)`,
-`g = gcd r0 r1`, `s·a ≡ g (mod p)`. -/
-def xgcd (r0 : Nat) (s0 : Int) (r1 : Nat) (s1 : Int) : Nat × Int :=
-  if h : r1 = 0 then (r0, s0)
-  else xgcd r1 s1 (r0 % r1) (s0 - ((r0 / r1 : Nat) : Int) * s1)
-termination_by r1
-decreasing_by exact Nat.mod_lt _ (Nat.pos_of_ne_zero h)
+/-- extended Euclid (`fuel` steps allowed): with `s0·a ≡ r0` and `s1·a ≡ r1 (mod p)` returns `(g, s)`,
+`g = gcd r0 r1`, `s·a ≡ g (mod p)`; `r1` decreases at every step, so `fuel > r1` always suffices. -/
+def xgcd : Nat → Nat → Int → Nat → Int → Nat × Int
+  | 0, r0, s0, _, _ => (r0, s0)
+  | f + 1, r0, s0, r1, s1 =>
+    if r1 = 0 then (r0, s0)
+    else xgcd f r1 s1 (r0 % r1) (s0 - ((r0 / r1 : Nat) : Int) * s1)
 
 /-- `inv_mod64(a, p)`: `some x` with `x < p`, `a·x ≡ 1 (mod p)` iff `gcd a p = 1`. -/
 def invMod (a p : Nat) : Option Nat :=
-  let gs := xgcd p 0 (a % p) 1
+  let gs := xgcd (p + 1) p 0 (a % p) 1
   if gs.1 = 1 then some (gs.2 % (p : Int)).toNat else none
 
 /-! ### data -/
@@ -235,7 +243,7 @@ structure Sieve where
   startOffset : Int
 
 def mkSieve (n : Int) (mm : Nat) : Sieve :=
-  { n, nsqrt := if n > 0 then Nat.sqrt n.toNat else 0, intervalSize := mm,
+  { n, nsqrt := if n > 0 then isqrt n.toNat else 0, intervalSize := mm,
     startOffset := -((mm : Int) / 2) }
 
 /-- `offset_modp[pidx] = modi64(start_offset)` -/
